@@ -7,7 +7,7 @@ from ..expand import clone
 from ..cfg import CFG
 from ..loops import dotted
 from ..nf import NF, Scope, Poly
-from ..repo import Repo, loc, short, AnalysisError, positional_params
+from ..repo import Repo, loc, short, AnalysisError, positional_params, param_names
 
 EXPLANATION = (
     "Round-trip equality is a runtime property and is NOT decided. Decided are necessary conditions, by dataflow rather than by text: "
@@ -44,11 +44,34 @@ def _init_attr_values(repo, cq):
         m = repo.method(c, "__init__", inherited=False)
         if not m:
             continue
+        # single-assignment locals (temporaries of expanded helpers) are read with their value
+        stores = {}
+        for n in ast.walk(m[1]):
+            if isinstance(n, ast.Name) and isinstance(n.ctx, ast.Store):
+                stores[n.id] = stores.get(n.id, 0) + 1
+        temps = {}
+        for n in ast.walk(m[1]):
+            if isinstance(n, ast.Assign) and len(n.targets) == 1 and isinstance(n.targets[0], ast.Name) and stores.get(n.targets[0].id) == 1 and n.targets[0].id not in param_names(m[1]):
+                temps[n.targets[0].id] = n.value
+
+        class _Sub(ast.NodeTransformer):
+            depth = 0
+
+            def visit_Name(self_inner, n):
+                if isinstance(n.ctx, ast.Load) and n.id in temps and self_inner.depth < 5:
+                    self_inner.depth += 1
+                    r = self_inner.visit(clone(temps[n.id]))
+                    self_inner.depth -= 1
+                    return r
+                return n
         for n in ast.walk(m[1]):
             if isinstance(n, (ast.Assign, ast.AnnAssign)) and n.value is not None:
                 for t in (n.targets if isinstance(n, ast.Assign) else [n.target]):
                     if isinstance(t, ast.Attribute) and dotted(t.value) == "self":
-                        out[t.attr] = (n.value, repo.cls(c)._module)
+                        v = n.value
+                        if temps and any(isinstance(x, ast.Name) and x.id in temps for x in ast.walk(v)):
+                            v = ast.fix_missing_locations(ast.copy_location(_Sub().visit(clone(v)), n.value))
+                        out[t.attr] = (v, repo.cls(c)._module)
     return out
 
 
@@ -178,6 +201,17 @@ def _const_names(repo, cq, e):
     if isinstance(e, (ast.Tuple, ast.List)) and all(isinstance(x, ast.Constant) and isinstance(x.value, str) for x in e.elts):
         return [x.value for x in e.elts]
     d = dotted(e)
+    if isinstance(e, ast.Name):
+        # a module-level constant of the class's module (or of a base class's module)
+        for c in repo.mro(cq):
+            try:
+                mi_ = repo.cls(c)._module
+            except Exception:
+                continue
+            for n in mi_.tree.body:
+                if isinstance(n, ast.Assign) and any(isinstance(t, ast.Name) and t.id == e.id for t in n.targets) and isinstance(n.value, (ast.Tuple, ast.List)):
+                    return _const_names(repo, cq, n.value)
+        return None
     if d and d.count(".") == 1 and d.split(".")[0] in ("self", "cls", "type(self)"):
         name = d.split(".")[1]
         for c in repo.mro(cq):
@@ -197,6 +231,16 @@ def _getstate(ck, repo, nf, cq, gq, g, init_vals):
     ck.need(len(rets) == 1 and isinstance(rets[0].value, ast.Name), f"{gq}.__getstate__: expected a single `return <dict name>` (unrecognised idiom)")
     dn = rets[0].value.id
     defs = [x for x in body if isinstance(x, ast.Assign) and dotted(x.targets[0]) == dn]
+    # `ret = state; return ret`: the returned name is an alias of the dict that was built
+    alias_stmts = []
+    for _ in range(3):
+        if len(defs) == 1 and isinstance(defs[0].value, ast.Name) and body and defs[0] is body[-2 if isinstance(body[-1], ast.Return) else -1]:
+            alias_stmts.append(defs[0])
+            dn = defs[0].value.id
+            defs = [x for x in body if isinstance(x, ast.Assign) and dotted(x.targets[0]) == dn]
+        else:
+            break
+    body = [x for x in body if not any(x is a_ for a_ in alias_stmts)]
     ck.need(len(defs) == 1, f"{gq}.__getstate__: `{dn}` has {len(defs)} definitions (unrecognised idiom)")
     src = ast.unparse(defs[0].value)
     is_copy = src in COPY_FORMS
@@ -297,6 +341,8 @@ def r1_buffers(ck, repo, nf):
         init_vals = _init_attr_values(repo, cq)
         dyn = sorted(a for a, (v, _) in init_vals.items() if _is_dynamic_class(v))
         gs, ss = repo.method(cq, "__getstate__"), repo.method(cq, "__setstate__")
+        if not init_vals and repo.subclasses(cq):
+            return     # a mixin without constructor: its state pair is judged in the classes that inherit it
         if gs is None and ss is None:
             ck.ob("R1-pickling-symmetry", cq, "default-pickling-ok", not dyn, f"dynamic-class / lambda attributes: {dyn}", "" if not dyn else "a class pickled by default holds an unpicklable attribute", loc(mi, cls))
             return
@@ -311,8 +357,29 @@ def r1_buffers(ck, repo, nf):
         chain = _setstate_chain(repo, cq)
         restored_at = None
         rebuilt = {}
+        temps = {}
+
+        class _Sub(ast.NodeTransformer):
+            def visit_Name(self_inner, n):
+                if isinstance(n.ctx, ast.Load) and n.id in temps:
+                    import copy as _copy
+                    return _copy.deepcopy(temps[n.id])
+                return n
         for i, (owner, fn, x) in enumerate(chain):
             omi = repo.cls(owner)._module
+            pps_ = [p_ for p_ in positional_params(fn) if p_ != "self"]
+            if isinstance(x, ast.Assign) and len(x.targets) == 1 and isinstance(x.targets[0], ast.Name) and x.targets[0].id not in pps_ \
+                    and not any(isinstance(c_, ast.Call) and isinstance(c_.func, ast.Attribute) and c_.func.attr in ("pop", "update", "clear", "setdefault") for c_ in ast.walk(x.value)):
+                # a local temporary (of an expanded helper): later uses are read with its value
+                import copy as _copy
+                temps[x.targets[0].id] = _Sub().visit(_copy.deepcopy(x.value))
+                continue
+            if temps:
+                import copy as _copy
+                x2 = _Sub().visit(_copy.deepcopy(x))
+                ast.copy_location(x2, x)
+                ast.fix_missing_locations(x2)
+                x = x2
             txt = ast.unparse(x)
             pps = [p_ for p_ in positional_params(fn) if p_ != "self"]
             dparam = pps[0] if pps else "d"
@@ -353,6 +420,11 @@ def r1_buffers(ck, repo, nf):
                 want = nf.poly(_unwrap_iter(init_vals[a][0]), Scope(None, init_vals[a][1], {}, cq), None).canon()
                 okv = got == want
                 oko = restored_at is not None and i > restored_at
+                if not okv:
+                    # a difference is evidence only when both sides are read completely: built from self.* and literals
+                    free = {n_.id for e_ in (_unwrap_iter(v), _unwrap_iter(init_vals[a][0])) for n_ in ast.walk(e_) if isinstance(n_, ast.Name)} - {"self", "namedtuple", "collections", "list", "tuple", "sorted", "reversed", "dict"}
+                    if free:
+                        raise AnalysisError(f"{cq}: `{a}` is rebuilt as `{short(v, 50)}` and created as `{short(init_vals[a][0], 50)}`: the names {sorted(free)[:3]} are not read (unrecognised form)")
                 ck.ob("R1-pickling-symmetry", cq, f"rebuilt:{a}", okv and oko, f"self.{a} = {short(v, 60)} ({'after' if oko else 'before'} the dict is restored); __init__: {short(init_vals[a][0], 60)}",
                       "" if okv and oko else ("the rebuilt attribute differs from the one __init__ creates (field order / names of the batch type change after reload)" if not okv else "the attribute is rebuilt from self.* before the pickled attributes are restored"), loc(omi, x))
             else:
